@@ -21,6 +21,10 @@ pub struct Style {
 
 pub const CANON: Style = Style { infix_compare: false, infix_arith: false, bare_zero_arity: false, quote_atoms: false, tight_commas: false, redundant_parens: false };
 
+/// Names with a fixed meaning as goals: never usable as user predicate names in text.
+pub const RESERVED: [&str; 22] = ["print", "append", "functor", "include", "exclude", "print_list", "unify", "equal", "less_than", "less_than_or_equal",
+    "greater_than", "greater_than_or_equal", "count", "fail", "nl", "!", "not", "time", "add", "subtract", "multiply", "divide"];
+
 pub fn float_text(f: f64) -> String {
     // plain decimal notation with a decimal point (the parser has no exponent syntax)
     if f == f.trunc() && f.abs() < 1e300 && f.is_finite() { format!("{:.1}", f) } else { format!("{}", f) }
